@@ -114,6 +114,7 @@ Proof.
   induction l as [|s r IH]; intros before m seen i HI Hwf; [reflexivity|].
   cbn [wf_links_from] in Hwf. apply andb_true_iff in Hwf. destruct Hwf as [Hwf Hrest].
   apply andb_true_iff in Hwf. destruct Hwf as [Hfresh Hlink].
+  apply andb_true_iff in Hfresh. destruct Hfresh as [Hfresh _].
   apply negb_true_iff in Hfresh.
   destruct (reset_step_ok before m seen s HI Hfresh) as (seen' & Hstep & HI').
   { intros Hp Hl b Hb Eb. rewrite Hp, Hl in Hlink. cbn [andb] in Hlink.
@@ -130,4 +131,143 @@ Theorem reset_links_valid_proof l : wf_links l = true -> hardlink_check (hardlin
 Proof.
   intros H. unfold hardlink_check, hardlink_reset. apply (reset_valid_gen l []); auto.
   constructor; intros k v [].
+Qed.
+
+(* ================= the reset computes the declarative description ================= *)
+Lemma first_rep_app a b k :
+  first_rep (a ++ b) k = match first_rep a k with Some x => Some x | None => first_rep b k end.
+Proof.
+  induction a as [|s a IH]; simpl; [reflexivity|].
+  destruct (hl_plain s && bytes_eqb (orig_rep s) k); auto.
+Qed.
+
+Lemma first_rep_in l k v : first_rep l k = Some v ->
+  exists b, In b l /\ st_path b = v /\ hl_plain b = true /\ orig_rep b = k.
+Proof.
+  induction l as [|s l IH]; simpl; [discriminate|].
+  destruct (hl_plain s && bytes_eqb (orig_rep s) k) eqn:E.
+  - intros H. inversion H; subst. apply andb_true_iff in E. destruct E as [E1 E2]. apply bytes_eqb_eq in E2.
+    exists s. auto.
+  - intros H. destruct (IH H) as (b & Hb & Hr). exists b. split; [right|]; auto.
+Qed.
+
+Lemma first_rep_none l k : (forall b, In b l -> hl_plain b = true -> orig_rep b <> k) -> first_rep l k = None.
+Proof.
+  induction l as [|s l IH]; intros H; simpl; [reflexivity|].
+  destruct (hl_plain s) eqn:Hp; cbn [andb].
+  - assert (E : bytes_eqb (orig_rep s) k = false) by (apply bytes_eqb_neq; apply H; [left|]; auto).
+    rewrite E. apply IH. intros b Hb. apply H. right; auto.
+  - apply IH. intros b Hb. apply H. right; auto.
+Qed.
+
+Lemma orig_rep_link s : has_link s = true -> orig_rep s = st_linkname s.
+Proof. unfold has_link, orig_rep. destruct (st_linkname s); [discriminate|reflexivity]. Qed.
+
+Lemma orig_rep_nolink s : has_link s = false -> orig_rep s = st_path s.
+Proof. unfold has_link, orig_rep. destruct (st_linkname s); [reflexivity|discriminate]. Qed.
+
+Lemma set_linkname_same s : has_link s = false -> set_linkname s [] = s.
+Proof. unfold has_link. destruct s; cbn. destruct st_linkname; [reflexivity|discriminate]. Qed.
+
+Lemma lookup_b_cons_ne k k' v m : k <> k' -> lookup_b k ((k', v) :: m) = lookup_b k m.
+Proof. intros H. simpl. apply bytes_eqb_neq in H. rewrite H. reflexivity. Qed.
+
+Lemma lookup_b_cons_eq k v m : lookup_b k ((k, v) :: m) = Some v.
+Proof. simpl. rewrite bytes_eqb_refl. reflexivity. Qed.
+
+Definition not_link_member_path (before : list stat) (k : list N) : Prop :=
+  forall b, In b before -> hl_plain b = true -> has_link b = true -> st_path b <> k.
+
+Definition Inv2 (before : list stat) (m : list (list N * list N)) : Prop :=
+  forall k, not_link_member_path before k -> lookup_b k m = first_rep before k.
+
+(* links of processed members never name a path still to come *)
+Definition Inv3 (before rest : list stat) : Prop :=
+  forall b x, In b before -> hl_plain b = true -> has_link b = true -> In x rest -> st_path x <> st_linkname b.
+
+Lemma reset_eq_spec_gen l : forall before m,
+  Inv2 before m -> Inv3 before l -> wf_links_from before l = true ->
+  reset_run m l = map (reset_spec_entry (before ++ l)) l.
+Proof.
+  induction l as [|s r IH]; intros before m H2 H3 Hwf; [reflexivity|].
+  cbn [wf_links_from] in Hwf. apply andb_true_iff in Hwf. destruct Hwf as [Hwf Hrest].
+  apply andb_true_iff in Hwf. destruct Hwf as [Hfresh Hlink].
+  apply andb_true_iff in Hfresh. destruct Hfresh as [Hfresh Hne].
+  apply negb_true_iff in Hfresh. pose proof (existsb_path_false _ _ Hfresh) as Hnew.
+  cbn [reset_run map].
+  assert (Hwhole : before ++ s :: r = (before ++ [s]) ++ r) by (rewrite <- app_assoc; reflexivity).
+  unfold reset_step, reset_spec_entry at 1.
+  destruct (hl_plain s) eqn:Hp; cbn [negb].
+  2:{ f_equal. rewrite Hwhole. apply IH; auto.
+      - intros k Hk. rewrite first_rep_app. cbn [first_rep]. rewrite Hp. cbn [andb].
+        rewrite <- H2; [destruct (lookup_b k m); reflexivity|].
+        intros b Hb. apply Hk. apply in_or_app; left; auto.
+      - intros b x Hb Hpb Hlb Hx. apply in_app_or in Hb. destruct Hb as [Hb|[<-|[]]]; [|congruence].
+        apply (H3 b x); auto. right; auto. }
+  destruct (has_link s) eqn:Hl.
+  - (* link member *)
+    cbn [andb] in Hlink. apply andb_true_iff in Hlink. destruct Hlink as [Hlink Hlater].
+    apply andb_true_iff in Hlink. destruct Hlink as [Hself Hbefore].
+    apply negb_true_iff in Hself. apply bytes_eqb_neq in Hself.
+    rewrite forallb_forall in Hbefore.
+    assert (HL : not_link_member_path before (st_linkname s)).
+    { intros b Hb Hpb Hlb E. specialize (Hbefore b Hb). rewrite E, bytes_eqb_refl in Hbefore.
+      cbn [negb orb] in Hbefore. rewrite Hpb, Hlb in Hbefore. discriminate. }
+    rewrite (H2 _ HL). rewrite (orig_rep_link s Hl).
+    rewrite first_rep_app. cbn [first_rep]. rewrite Hp, (orig_rep_link s Hl), bytes_eqb_refl. cbn [andb].
+    assert (Hlater' : forall x, In x r -> st_path x <> st_linkname s).
+    { intros x Hx E. apply negb_true_iff in Hlater.
+      assert (existsb (fun a => bytes_eqb (st_path a) (st_linkname s)) r = true).
+      { apply existsb_exists. exists x. split; auto. apply bytes_eqb_eq; auto. }
+      congruence. }
+    assert (H3' : Inv3 (before ++ [s]) r).
+    { intros b x Hb Hpb Hlb Hx. apply in_app_or in Hb. destruct Hb as [Hb|[<-|[]]].
+      - apply (H3 b x); auto. right; auto.
+      - apply Hlater'; auto. }
+    destruct (first_rep before (st_linkname s)) as [v|] eqn:ER.
+    + destruct (first_rep_in _ _ _ ER) as (b & Hb & Eb & _).
+      assert (Hv : bytes_eqb v (st_path s) = false) by (apply bytes_eqb_neq; intro E; apply (Hnew b Hb); congruence).
+      rewrite Hv. f_equal. rewrite Hwhole. apply IH; auto.
+      intros k Hk. assert (Hkp : k <> st_path s).
+      { intro E. apply (Hk s); auto. apply in_or_app; right; left; reflexivity. }
+      rewrite lookup_b_cons_ne by auto.
+      rewrite first_rep_app. cbn [first_rep]. rewrite Hp, (orig_rep_link s Hl). cbn [andb].
+      rewrite H2 by (intros b' Hb'; apply Hk; apply in_or_app; left; auto).
+      destruct (first_rep before k) eqn:E1; [reflexivity|].
+      destruct (bytes_eqb (st_linkname s) k) eqn:E2; [|reflexivity].
+      apply bytes_eqb_eq in E2. subst k. congruence.
+    + rewrite bytes_eqb_refl. f_equal. rewrite Hwhole. apply IH; auto.
+      intros k Hk. assert (Hkp : k <> st_path s).
+      { intro E. apply (Hk s); auto. apply in_or_app; right; left; reflexivity. }
+      rewrite lookup_b_cons_ne by auto.
+      rewrite first_rep_app. cbn [first_rep]. rewrite Hp, (orig_rep_link s Hl). cbn [andb].
+      destruct (bytes_eqb (st_linkname s) k) eqn:E2.
+      * apply bytes_eqb_eq in E2. subst k. rewrite lookup_b_cons_eq, ER. reflexivity.
+      * apply bytes_eqb_neq in E2. rewrite lookup_b_cons_ne by auto.
+        rewrite H2 by (intros b' Hb'; apply Hk; apply in_or_app; left; auto).
+        destruct (first_rep before k); reflexivity.
+  - (* plain entry that is not a link *)
+    rewrite (orig_rep_nolink s Hl).
+    assert (HR : first_rep before (st_path s) = None).
+    { apply first_rep_none. intros b Hb Hpb E.
+      destruct (has_link b) eqn:Hlb.
+      - rewrite (orig_rep_link b Hlb) in E. apply (H3 b s Hb Hpb Hlb); [left; reflexivity|auto].
+      - rewrite (orig_rep_nolink b Hlb) in E. apply (Hnew b Hb). auto. }
+    rewrite first_rep_app, HR. cbn [first_rep]. rewrite Hp, (orig_rep_nolink s Hl), bytes_eqb_refl. cbn [andb].
+    rewrite bytes_eqb_refl, (set_linkname_same s Hl). f_equal. rewrite Hwhole. apply IH; auto.
+    + intros k Hk. rewrite first_rep_app. cbn [first_rep]. rewrite Hp, (orig_rep_nolink s Hl). cbn [andb].
+      destruct (bytes_eqb (st_path s) k) eqn:E2.
+      * apply bytes_eqb_eq in E2. subst k. rewrite lookup_b_cons_eq, HR. reflexivity.
+      * apply bytes_eqb_neq in E2. rewrite lookup_b_cons_ne by auto.
+        rewrite H2 by (intros b' Hb'; apply Hk; apply in_or_app; left; auto).
+        destruct (first_rep before k); reflexivity.
+    + intros b x Hb Hpb Hlb Hx. apply in_app_or in Hb. destruct Hb as [Hb|[<-|[]]]; [|congruence].
+      apply (H3 b x); auto. right; auto.
+Qed.
+
+Theorem reset_eq_spec_proof l : wf_links l = true -> hardlink_reset l = reset_spec l.
+Proof.
+  intros H. unfold hardlink_reset, reset_spec. apply (reset_eq_spec_gen l [] []); auto.
+  - intros k _. reflexivity.
+  - intros b x [].
 Qed.
